@@ -216,6 +216,8 @@ pub struct HybState {
     pub handoff_at: Vec<u64>,
     /// (key, version) the client is currently writing (attribution of write-on-insertion hand-offs)
     pub cur_write: Option<(u64, u32)>,
+    /// the same for the second foreground client (its keys are disjoint from the first client's)
+    pub cur_write_b: Option<(u64, u32)>,
     /// version counter value at the first explicit close() since the last (re)open
     pub close_ver: Option<u32>,
     /// number of device writes issued by the workload proper (C04 / C03: later writes belong to recoveries)
@@ -231,6 +233,19 @@ thread_local! {
     pub static ST: RefCell<HybState> = RefCell::new(HybState::default());
     /// invoke sequence number of the client operation in progress
     pub static OP_INV: std::cell::Cell<u64> = const { std::cell::Cell::new(0) };
+    /// the same for the second foreground client (C01: a concurrent client on its own keys), and that client's task
+    pub static OP_INV_B: std::cell::Cell<u64> = const { std::cell::Cell::new(0) };
+    pub static CLIENT_B_TASK: std::cell::Cell<usize> = const { std::cell::Cell::new(usize::MAX) };
+}
+
+fn cur_task() -> usize {
+    shuttle::current::get_current_task().map(usize::from).unwrap_or(usize::MAX)
+}
+
+/// Invoke sequence number of the operation in progress of the client the current task belongs to (background tasks
+/// count as the first client's, as before there was a second one).
+pub fn op_inv() -> u64 {
+    if CLIENT_B_TASK.with(|c| c.get()) == cur_task() { OP_INV_B.with(|c| c.get()) } else { OP_INV.with(|c| c.get()) }
 }
 
 pub fn hash_of(hmode: u8, k: u64) -> u64 {
@@ -279,11 +294,9 @@ fn on_foyer_event(kind: &'static str, a: u64, b: u64) {
                     if let Some(v) = s.last_leave.remove(&(task, k)) {
                         s.handoffs.push((k, v, b, task as u64));
                         s.handoff_at.push(now);
-                    } else if let Some((ck, cv)) = s.cur_write {
-                        if ck == k {
-                            s.handoffs.push((k, cv, b, task as u64));
-                            s.handoff_at.push(now);
-                        }
+                    } else if let Some((_, cv)) = s.cur_write.filter(|(ck, _)| *ck == k).or(s.cur_write_b.filter(|(ck, _)| *ck == k)) {
+                        s.handoffs.push((k, cv, b, task as u64));
+                        s.handoff_at.push(now);
                     }
                 }
                 for (k, m) in s.model.iter_mut() {
@@ -298,7 +311,24 @@ fn on_foyer_event(kind: &'static str, a: u64, b: u64) {
             hist::ev("submitted", a, b, 0);
         }
         "delete" => {
-            hist::ev("disk_delete", a, 0, 0);
+            // is a key of that hash resident in memory at the moment the disk tier is told to delete it? (on the
+            // unchanged tree remove() has taken it out of memory before)
+            let (hmode, keys): (u8, Vec<u64>) = ST.with(|s| {
+                let s = s.borrow();
+                (s.hmode, s.model.keys().copied().collect())
+            });
+            let f = MEM_CONTAINS.with(|m| m.borrow_mut().take());
+            let resident = match &f {
+                Some(f) => keys.iter().filter(|k| hash_of(hmode, **k) == a).any(|k| f(*k)),
+                None => false,
+            };
+            MEM_CONTAINS.with(|m| {
+                let mut m = m.borrow_mut();
+                if m.is_none() {
+                    *m = f;
+                }
+            });
+            hist::ev("disk_delete", a, resident as u64, 0);
         }
         "skip_young" => {
             hist::ev("skip_young", a, 0, 0);
@@ -368,7 +398,19 @@ pub async fn open(case: &Case, ctl: &Ctl) -> Result<HCache, String> {
     let saved = simdev::DISK.with(|d| std::mem::take(&mut d.borrow_mut().read_faults));
     let r = open_inner(case, ctl).await;
     simdev::DISK.with(|d| d.borrow_mut().read_faults = saved);
+    if let Ok(c) = &r {
+        // lets the `delete` probe ask whether a key is resident in memory at that instant (classification aid)
+        let mem = c.memory().clone();
+        MEM_CONTAINS.with(|m| *m.borrow_mut() = Some(std::mem::ManuallyDrop::new(Box::new(move |k: u64| mem.contains(&k)))));
+    }
     r
+}
+
+thread_local! {
+    /// "is this key resident in the memory tier right now" for the store currently open (dropped at shutdown)
+    /// ManuallyDrop: the handle is dropped explicitly in `shutdown` (inside the simulated execution); a run that ends
+    /// abnormally leaks it rather than running foyer destructors from a thread-local destructor.
+    static MEM_CONTAINS: RefCell<Option<std::mem::ManuallyDrop<Box<dyn Fn(u64) -> bool>>>> = const { RefCell::new(None) };
 }
 
 async fn open_inner(case: &Case, ctl: &Ctl) -> Result<HCache, String> {
@@ -515,20 +557,22 @@ pub fn judge(case: &Case, k: u64, bytes: &[u8], via: &str) -> Res {
                                 && parser::parse_entries(&w.data).iter().any(|e| e.header.hash == hash_of(hmode, k) && seqs.contains(&e.header.sequence))
                         })
                     });
+                // ... or was it put into the disk tier's write queue by another task after the removal had been invoked
+                // (a lookup can be served from the queue before any device write happens)?
+                let late = late
+                    || ST.with(|s| {
+                        let s = s.borrow();
+                        s.handoffs.iter().zip(s.handoff_at.iter()).any(|((hk, hv, hs, t), at)| *hk == k && *hv == ver && *hs != u64::MAX && *t != client_task && *at > km.removed_at)
+                    });
                 shape.push(("handoff_during_or_after_removal", late.to_string()));
-                // did a background task evict exactly this version from memory only AFTER the removal had reached the
-                // disk tier (Store::delete probe)? remove() takes the entry out of memory first and deletes on disk
-                // second, so on the unchanged tree nothing of the key is left in memory to be evicted by then (unless
-                // an abandoned lookup put it back, D23)
-                let evicted_after_delete = hist::with_events(|evs| {
+                // was the key still resident in memory when the removal reached the disk tier (Store::delete probe)?
+                // remove() takes the entry out of memory first and deletes on disk second, so on the unchanged tree
+                // nothing of the key is in memory by then (unless an abandoned lookup put it back, D23)
+                let resident_at_delete = hist::with_events(|evs| {
                     let h = hash_of(hmode, k);
-                    let del = evs.iter().find(|e| e.kind == "disk_delete" && e.a == h && e.seq > km.removed_at).map(|e| e.seq);
-                    match del {
-                        Some(d) => evs.iter().any(|e| e.kind == "mem_leave" && e.a == 0 && e.b == k && e.c == ver as u64 && e.task as u64 != client_task && e.seq > d),
-                        None => false,
-                    }
+                    evs.iter().find(|e| e.kind == "disk_delete" && e.a == h && e.seq > km.removed_at).map(|e| e.b != 0).unwrap_or(false)
                 });
-                shape.push(("evicted_from_memory_after_disk_delete", evicted_after_delete.to_string()));
+                shape.push(("resident_in_memory_at_disk_delete", resident_at_delete.to_string()));
                 // was a lookup of this key, started while the removed version was current and abandoned by its caller
                 // while still pending, in flight when the removal started? (its disk load may complete afterwards
                 // and put the removed value back into memory)
@@ -547,11 +591,19 @@ pub fn judge(case: &Case, k: u64, bytes: &[u8], via: &str) -> Res {
                         .iter()
                         .zip(s.handoff_at.iter())
                         .any(|((hk, hv, _, t), at)| *hk == k && *hv == ver && *t != client_task && *at > cur_written_inv)
+                        // two foreground clients: the older and the current version were handed over by two different
+                        // tasks (e.g. the replaced copy evicted by the inserting client, the new copy by the other
+                        // client's evict_all) and the older one drew the later engine sequence
+                        || km.cur.map(|cur| {
+                            s.handoffs.iter().filter(|(hk, hv, hs, _)| *hk == k && *hv == ver && *hs != u64::MAX).any(|(_, _, s_old, t_old)| {
+                                s.handoffs.iter().any(|(ck, cv, s_cur, t_cur)| *ck == k && *cv == cur && *s_cur != u64::MAX && t_cur != t_old && s_old > s_cur)
+                            })
+                        }).unwrap_or(false)
                 });
                 shape.push(("racing_background_handoff_of_older_version", overtook.to_string()));
                 // is the CURRENT version in the gap between leaving memory (evicted by a background task) and
                 // entering the write queue? (the hand-off was not complete when this lookup started)
-                let read_start = OP_INV.with(|c| c.get());
+                let read_start = op_inv();
                 let in_gap = km.cur.map(|cur| {
                     let left: Option<u64> = hist::with_events(|evs| {
                         evs.iter()
@@ -609,7 +661,7 @@ fn model_write(k: u64, ver: u32, len: usize, loc: u8, class: u32) {
         let m = s.model.entry(k).or_default();
         m.cur = Some(ver);
         m.reported_wrong = None;
-        m.versions.insert(ver, VerInfo { len, loc, class, written_inv: OP_INV.with(|c| c.get()) });
+        m.versions.insert(ver, VerInfo { len, loc, class, written_inv: op_inv() });
     });
 }
 
@@ -619,7 +671,7 @@ pub fn model_register(k: u64, ver: u32, len: usize, loc: u8, class: u32) {
     ST.with(|s| {
         let mut s = s.borrow_mut();
         let m = s.model.entry(k).or_default();
-        m.versions.insert(ver, VerInfo { len, loc, class, written_inv: OP_INV.with(|c| c.get()) });
+        m.versions.insert(ver, VerInfo { len, loc, class, written_inv: op_inv() });
     });
 }
 
@@ -634,7 +686,7 @@ fn model_remove(k: u64) {
         m.oversize_shed = false;
         m.floor_by_clear = false;
         m.reported_wrong = None;
-        m.removed_at = OP_INV.with(|c| c.get());
+        m.removed_at = op_inv();
     });
 }
 
@@ -642,7 +694,7 @@ fn model_clear() {
     ST.with(|s| {
         let mut s = s.borrow_mut();
         let nv = s.next_ver + 1;
-        let now = OP_INV.with(|c| c.get());
+        let now = op_inv();
         for m in s.model.values_mut() {
             m.cur = None;
             m.floor = nv;
@@ -707,6 +759,9 @@ impl Hyb {
 
     pub async fn shutdown(&mut self, graceful: bool) {
         self.held.clear();
+        if let Some(f) = MEM_CONTAINS.with(|m| m.borrow_mut().take()) {
+            drop(std::mem::ManuallyDrop::into_inner(f));
+        }
         if graceful {
             self.unhold_flush();
         }
@@ -1035,7 +1090,7 @@ impl Hyb {
                             Some(Err(e)) => Res::err(crate::memscn::err_kind(&e)),
                             None => {
                                 hist::fault("caller_abandoned_lookup");
-                                let inv = OP_INV.with(|c| c.get());
+                                let inv = op_inv();
                                 ST.with(|s| s.borrow_mut().bg_lookups.push((kk, inv)));
                                 Res::unit()
                             }
@@ -1167,12 +1222,25 @@ pub fn exec(case: &Case) {
         };
         let mut h = Hyb { g: geo(&case), case: case.clone(), ctl, cache: Some(cache), held: vec![] };
         let ops = case.clients.first().cloned().unwrap_or_default();
+        // C01: a second foreground client works concurrently on its own keys (`keys ..`): its inserts evict the first
+        // client's entries (and vice versa) at arbitrary points of the first client's operations
+        let client_b = if case.get("client_b") != 0 && case.clients.len() > 1 {
+            let cache = h.cache.clone().unwrap();
+            hist::fault("second_foreground_client");
+            Some(shuttle::future::spawn(second_client(cache, case.clone(), h.g.clone(), case.clients[1].clone())))
+        } else {
+            None
+        };
         for (idx, op) in ops.iter().enumerate() {
             let inv = hist::ev("inv", 0, idx as u64, 0);
             OP_INV.with(|c| c.set(inv));
             let res = h.exec_op(op).await;
             let ret = hist::ev("ret", 0, idx as u64, res.tag as u64);
             ST.with(|s| s.borrow_mut().oplog.push(OpRec { client: 0, idx, op: op.clone(), inv, ret, res }));
+        }
+        if let Some(jh) = client_b {
+            let _ = jh.await;
+            CLIENT_B_TASK.with(|c| c.set(usize::MAX));
         }
         if case.clients.len() > 1 && matches!(case.property.as_str(), "C06" | "C11") {
             concurrent_round(&mut h).await;
@@ -1183,6 +1251,54 @@ pub fn exec(case: &Case) {
         h.shutdown(true).await;
         hist::ev("end", 0, 0, 0);
     });
+}
+
+/// The second foreground client of C01: inserts, lookups and removes on its own key range, judged by the same value
+/// oracle. It never restarts the store (the generator keeps restarts out of the first client's list when it is on).
+async fn second_client(cache: HCache, case: Case, g: Geo, ops: Vec<Op>) {
+    CLIENT_B_TASK.with(|c| c.set(cur_task()));
+    for (idx, op) in ops.iter().enumerate() {
+        let inv = hist::ev("inv", 1, idx as u64, 0);
+        OP_INV_B.with(|c| c.set(inv));
+        let res = match op {
+            Op::Insert { k, w, .. } => {
+                let ver = fresh_ver();
+                let len = value_len(&g, *w, ver);
+                let loc = key_class(&case, *k);
+                model_register(*k, ver, len, loc, *w);
+                ST.with(|s| s.borrow_mut().cur_write_b = Some((*k, ver)));
+                drop(cache.insert_with_properties(*k, make_value(*k, ver, len, false), HybridCacheProperties::default().with_location(loc_of(loc))));
+                model_write(*k, ver, len, loc, *w);
+                hist::ev("h_insert", *k, ver as u64, loc as u64);
+                ST.with(|s| s.borrow_mut().cur_write_b = None);
+                Res::hit(*k, ver, len as u32, 0)
+            }
+            Op::Get { k, .. } => match cache.get(k).await {
+                Ok(Some(e)) => {
+                    let r = judge(&case, *k, e.value(), "get");
+                    hist::ev("h_get", *k, r.ver as u64, src(e.source()) | (age_of(&e) << 8));
+                    r
+                }
+                Ok(None) => Res::miss(),
+                Err(e) => Res::err(crate::memscn::err_kind(&e)),
+            },
+            Op::Remove { k } => {
+                cache.remove(k);
+                model_remove(*k);
+                hist::ev("h_remove", *k, 0, 0);
+                Res::unit()
+            }
+            Op::Yield { n } => {
+                for _ in 0..*n {
+                    shuttle::future::yield_now().await;
+                }
+                Res::unit()
+            }
+            _ => Res::unit(),
+        };
+        let ret = hist::ev("ret", 1, idx as u64, res.tag as u64);
+        ST.with(|s| s.borrow_mut().oplog.push(OpRec { client: 1, idx, op: op.clone(), inv, ret, res }));
+    }
 }
 
 /// One caller of the concurrent round (its own simulated task).
